@@ -191,6 +191,10 @@ class BaseKey(t.Generic[NativePrivateKey, NativePublicKey], metaclass=ABCMeta):
         :param params: other parameters added into this key
         :raise: ValueError
         """
+        # anything but None is a yes or a no, whatever object says it (0, numpy.False_)
+        if private is not None:
+            private = bool(private)
+
         # check private conflicts
         if private and not self.is_private:
             raise ValueError("This key is not a private key.")
